@@ -1,0 +1,19 @@
+//go:build verif
+
+package packets
+
+// Thin exported access for the out-of-tree verification harness (/verif/harness, property C15).
+// Compiled only with `-tags verif`; adds no behaviour to the normal build.
+
+// VerifHeader returns the two required header fields that have no public accessor.
+func (p *Packet) VerifHeader() (version uint8, sourceID uint32) {
+	return p.version, p.sourceID
+}
+
+// VerifShape returns a copy of the payload shape; ok is false when the packet carries no shape.
+func (p *Packet) VerifShape() (sizes []int16, ok bool) {
+	if p.shape == nil {
+		return nil, false
+	}
+	return append([]int16{}, p.shape.Sizes...), true
+}
